@@ -23,6 +23,13 @@ CLAIMED = {
         'analyser, generator, parser and flattening entry gates dominate the code they protect; document roots and import-source models are tested before use. Absence of all undefined behaviour is not claimed.',
    note='Trusted: clang AST/CFG/call graph, C++ exception specifications, libxml2 contracts named in the exemption reasons. Seven unguarded units-reference recursions are listed as known findings (replayed stack exhaustion on units a->b->a); three crash defects were repaired.',
    ref='DESIGN.md section 4, C01'),
+ 'C07': dict(
+   technique='static analysis: history-test dominance on import recursion, interprocedural fails=>logged summaries, CFG ordering rules (fresh start, commit-on-success), dataflow slices (normalised keys, base path)',
+   text='Every recursive step along an import is dominated by a history test whose history is handed on; every path on which a fetch/check function, resolveImports or flattenModel yields its failure value has added an issue; '
+        'a resolution starts with removeAllIssues and clearImports; library keys are normalised on every access; a model is cached and attached to its import source only on paths that go on to succeed; '
+        'the base handed to nested fetches derives from the base the importing file was fetched with. Necessary conditions; "succeeds exactly when possible" and the file system are not decided.',
+   note='Trusted: clang AST/CFG/call graph; checkForImportCycles is a correct membership test. The missing local-cycle test in checkUnitsForCycles is keyed under C01.R1.',
+   ref='DESIGN.md section 4, C07'),
  'C08': dict(
    technique='static analysis: constant tables vs an independent SI oracle; symbolic normal forms (polynomials over roles) of the three unit reducers evaluated on a generic three-level chain and compared',
    text='(T) standardUnitsList/standardMultiplierList/standardPrefixList and the enum spellings are read from their initialisers and compared value by value with the SI definitions and with each other; '
